@@ -201,8 +201,8 @@ theorem baseOfDds_normBase (name : Dds.Text) (dims : List Dds.Text) (ty : Ty) (s
 def answerDs (dsName name : Dds.Text) (dims : List Dds.Text) (ty : Ty) (cshape : List Nat) : Dds.Dataset :=
   ⟨dsName, [.base (ddsBase name dims ty cshape)]⟩
 
-/-- what remains a *checked hypothesis* about the printed text (decidable for every concrete dataset, checked
-    by the harness on every real body): it is ASCII and none of its newlines is followed by `D` -/
+/-- what the split and the ASCII decoding need of the printed text: it is ASCII and none of its newlines is followed
+    by `D` (proved below for every answer dataset with names in C07's domain: `textOk_answerDs`) -/
 def TextOk (d : Dds.Dataset) : Prop :=
   ∀ s0, Dds.printDs d = .ok (s0 ++ ['\n']) → (∀ c ∈ s0, c.toNat < 128) ∧ sepFree (encodeAscii s0) = true
 
@@ -229,6 +229,147 @@ theorem answerDs_tmpl (dsName name : Dds.Text) (dims : List Dds.Text) (ty : Ty) 
   simp [tmplOfDataset, Dds.normDs, answerDs, Dds.normL, Dds.normT, tmplOfDds, baseOfDds_normBase name dims ty cshape hd,
     answerTmpl]
 
+/-! ### `TextOk` for every answer dataset with names in C07's domain -/
+
+/-- ASCII and not a newline -/
+def Plain (t : Dds.Text) : Prop := ∀ c ∈ t, c.toNat < 128 ∧ c.toNat ≠ 10
+
+open Dds in
+theorem nameRe_plain (c : Char) (h : isNameRe c = true) : c.toNat < 128 ∧ c.toNat ≠ 10 := by
+  constructor <;> char_arith
+
+theorem plain_append {a b : Dds.Text} (ha : Plain a) (hb : Plain b) : Plain (a ++ b) := by
+  intro c hc
+  rcases List.mem_append.mp hc with h | h
+  · exact ha c h
+  · exact hb c h
+
+theorem plain_flatMap {α : Type} (l : List α) (f : α → Dds.Text) (h : ∀ x ∈ l, Plain (f x)) : Plain (l.flatMap f) := by
+  intro c hc
+  obtain ⟨x, hx, hcx⟩ := List.mem_flatMap.mp hc
+  exact h x hx c hcx
+
+theorem plain_name {n : Dds.Text} (h : Dds.NameOk n) : Plain n := fun c hc => nameRe_plain c (h.2 c hc)
+
+theorem plain_intText (n : Nat) : Plain (intText (Int.ofNat n)) := by
+  have : intText (Int.ofNat n) = natDigits n := by simp [intText]
+  rw [this]
+  intro c hc
+  exact nameRe_plain c (Dds.digit_nameRe c (natDigits_allDigits n c hc))
+
+theorem plain_lit (t : Dds.Text) (h : t.all (fun c => decide (c.toNat < 128) && decide (c.toNat ≠ 10)) = true) : Plain t := by
+  intro c hc
+  have := List.all_eq_true.mp h c hc
+  simpa using this
+
+theorem plain_dimText (nm : Dds.Text) (n : Nat) (h : Plain nm) : Plain (Dds.dimText nm (Int.ofNat n)) := by
+  unfold Dds.dimText
+  exact plain_append (plain_append (plain_append (plain_append (plain_lit ['['] (by decide)) h) (plain_lit [' ', '=', ' '] (by decide)))
+    (plain_intText n)) (plain_lit [']'] (by decide)) |> fun x => by simpa using x
+
+theorem plain_anonText (n : Nat) : Plain (Dds.anonText (Int.ofNat n)) := by
+  unfold Dds.anonText
+  have := plain_append (plain_append (plain_lit ['['] (by decide)) (plain_intText n)) (plain_lit [']'] (by decide))
+  simpa using this
+
+theorem plain_shapeText (name : Dds.Text) (dims : List Dds.Text) (ty : Ty) (shape : List Nat)
+    (hn : Dds.NameOk name) (hdn : ∀ x ∈ dims, Dds.NameOk x) :
+    Plain (Dds.shapeText (ddsBase name dims ty shape) 0) := by
+  unfold Dds.shapeText ddsBase
+  simp only [List.drop_zero]
+  split
+  · apply plain_flatMap
+    intro p hp
+    have h1 : p.1 ∈ dims := (List.of_mem_zip hp).1
+    have h2 : p.2 ∈ shape.map Int.ofNat := (List.of_mem_zip hp).2
+    obtain ⟨n, _, hn2⟩ := List.mem_map.mp h2
+    rw [← hn2]
+    exact plain_dimText p.1 n (plain_name (hdn _ h1))
+  · split
+    · apply plain_flatMap
+      intro x hx
+      obtain ⟨n, _, rfl⟩ := List.mem_map.mp hx
+      exact plain_dimText name n (plain_name hn)
+    · apply plain_flatMap
+      intro x hx
+      obtain ⟨n, _, rfl⟩ := List.mem_map.mp hx
+      exact plain_anonText n
+
+/-! bytes -/
+
+theorem enc_plain {t : Dds.Text} (h : Plain t) : ∀ x ∈ encodeAscii t, x ≠ 10 := by
+  intro x hx
+  obtain ⟨c, hc, rfl⟩ := List.mem_map.mp hx
+  obtain ⟨h1, h2⟩ := h c hc
+  intro he
+  have := congrArg UInt8.toNat he
+  simp [UInt8.toNat_ofNat'] at this
+  omega
+
+theorem sepFree_append (a b : Bytes) (h : ∀ x ∈ a, x ≠ 10) : sepFree (a ++ b) = sepFree b := by
+  induction a with
+  | nil => rfl
+  | cons x a ih =>
+    have hx : x ≠ 10 := h x (by simp)
+    simp only [List.cons_append, sepFree]
+    rw [ih (fun y hy => h y (by simp [hy]))]
+    simp [hx]
+
+theorem sepFree_nl (y : UInt8) (r : Bytes) (hy : y ≠ 68) : sepFree (10 :: y :: r) = sepFree (y :: r) := by
+  simp [sepFree, hy]
+
+theorem encodeAscii_append (a b : Dds.Text) : encodeAscii (a ++ b) = encodeAscii a ++ encodeAscii b := by
+  simp [encodeAscii]
+
+/-- **`TextOk` holds for every answer dataset with names in C07's domain** -/
+theorem textOk_answerDs (dsName name : Dds.Text) (dims : List Dds.Text) (ty : Ty) (cshape : List Nat)
+    (hds : Dds.NameOk dsName) (hn : Dds.NameOk name) (hdn : ∀ x ∈ dims, Dds.NameOk x) :
+    TextOk (answerDs dsName name dims ty cshape) := by
+  intro s0 hp
+  obtain ⟨tyT, hty⟩ := Option.isSome_iff_exists.mp (tyKnown_npChar ty)
+  obtain ⟨dt, hf⟩ := Dds.tyFacts _ _ hty
+  have hT : Plain tyT := fun c hc => nameRe_plain c (Dds.word_nameRe c (hf.word c hc))
+  -- the three lines of the text
+  let B : Dds.Text := List.replicate 3 ' ' ++ tyT ++ [' '] ++ name ++ Dds.shapeText (ddsBase name dims ty cshape) 0 ++ [';']
+  let C : Dds.Text := [' '] ++ dsName ++ [';']
+  have hB : Plain B :=
+    plain_append (plain_append (plain_append (plain_append (plain_append (plain_lit _ (by decide)) hT) (plain_lit _ (by decide)))
+      (plain_name hn)) (plain_shapeText name dims ty cshape hn hdn)) (plain_lit _ (by decide))
+  have hC : Plain C := plain_append (plain_append (plain_lit _ (by decide)) (plain_name hds)) (plain_lit _ (by decide))
+  have hs : s0 = "Dataset {".toList ++ '\n' :: ' ' :: (B ++ '\n' :: '}' :: C) := by
+    apply List.append_cancel_right (bs := ['\n'])
+    have hty' : Dds.lookup Gen.NUMPY_TO_DAP2_TYPEMAP (Dds.dtypeChar (ddsBase name dims ty cshape).dt) = some tyT := hty
+    simp only [answerDs, Dds.printDs, Dds.printL, Dds.printT, Dds.printBase, hty'] at hp
+    have hp' := Except.ok.inj hp
+    rw [← hp']
+    simp [B, C, Dds.indent, Dds.closeText, ddsBase, List.replicate]
+  subst hs
+  refine ⟨?_, ?_⟩
+  · intro c hc
+    simp only [List.mem_append, List.mem_cons] at hc
+    rcases hc with h | h | h | h | h | h | h
+    · exact (plain_lit "Dataset {".toList (by decide) c h).1
+    · subst h; decide
+    · subst h; decide
+    · exact (hB c h).1
+    · subst h; decide
+    · subst h; decide
+    · exact (hC c h).1
+  · have e : encodeAscii ("Dataset {".toList ++ '\n' :: ' ' :: (B ++ '\n' :: '}' :: C))
+        = encodeAscii "Dataset {".toList ++ 10 :: 32 :: (encodeAscii B ++ 10 :: 125 :: (encodeAscii C ++ [])) := by
+      simp [encodeAscii]
+    rw [e, sepFree_append _ _ (enc_plain (plain_lit _ (by decide))), sepFree_nl _ _ (by decide)]
+    rw [← List.cons_append, sepFree_append (32 :: encodeAscii B) _ (by
+      intro x hx; rcases List.mem_cons.mp hx with h | h
+      · subst h; decide
+      · exact enc_plain hB x h)]
+    rw [sepFree_nl _ _ (by decide), ← List.cons_append, sepFree_append (125 :: encodeAscii C) [] (by
+      intro x hx; rcases List.mem_cons.mp hx with h | h
+      · subst h; decide
+      · exact enc_plain hC x h)]
+    rfl
+
+
 /-- **(B), generic in the expansion `E` of the index**: request ∘ server slicing ∘ DDS print ‖ `Data:` ‖ XDR
     encode ∘ client split ∘ DDS parse ∘ declaration conversion ∘ XDR decode = numpy indexing, and the
     declaration the client holds afterwards is the printed one (name, parser dtype of `ty`, constrained
@@ -239,8 +380,7 @@ theorem fetchArrayText_spec (dsName name : Dds.Text) (dims : List Dds.Text) (ty 
     (hfix : ∀ cshape : List Nat, cshape.length = shape.length → fixSlice idx cshape = zipFix E cshape)
     (hv : ValidList shape (padPre pre shape.length) E)
     (hds : Dds.NameOk dsName) (hn : Dds.NameOk name) (hdn : ∀ x ∈ dims, Dds.NameOk x)
-    (hd : dims = [] ∨ dims.length = shape.length)
-    (htext : ∀ cshape, TextOk (answerDs dsName name dims ty cshape)) :
+    (hd : dims = [] ∨ dims.length = shape.length) :
     ∃ cshape vs, numpyIndex shape vals (padPre pre shape.length) E = some (cshape, vs) ∧
       fetchArrayText dsName name dims ty shape vals pre idx
         = .ok (Dds.normDs (answerDs dsName name dims ty cshape), .tuple [dataOf cshape vs], []) := by
@@ -252,7 +392,7 @@ theorem fetchArrayText_spec (dsName name : Dds.Text) (dims : List Dds.Text) (ty 
     simp [selShape, selList_length shape _ hq]
   obtain ⟨s0, hs0⟩ := answerDs_prints dsName name dims ty
     (selShape (selList shape (reqList shape (padPre pre shape.length) E)))
-  obtain ⟨ha, hs⟩ := htext _ s0 hs0
+  obtain ⟨ha, hs⟩ := textOk_answerDs dsName name dims ty _ hds hn hdn s0 hs0
   have hbody := clientDecode_body _ s0 _ _ (answerDs_wf dsName name dims ty _ hds hn hdn) hs0 ha hs
     (answerDs_tmpl dsName name dims ty _ (by rw [hcl]; exact hd)) (served_wf ty shape vals _ hw hq)
   unfold fetchArrayText responseBody
